@@ -244,9 +244,9 @@ Lemma parse_nofault dl b : PREFIX_SIZE + HEADER_SIZE <= dl -> len b < 65536 -> p
 Proof. intros Hdl Hlen E. pose proof (parse_spec dl b Hdl Hlen) as H. rewrite E in H. exact H. Qed.
 
 (* ---------- invariants of the resolver ---------- *)
-Ltac sim := cbn [now tc success ip cbp req dlen reg tT tR seqc sres halted fires
+Ltac sim := cbn [now tc success ip cbp req dlen reg tT tR seqc sres cres halted fires
                  set_now set_tc set_success set_ip set_cbp set_req set_dlen set_reg set_tT set_tR set_seqc
-                 set_sres set_halted set_fires arm disarm armed due tseq fst snd] in *.
+                 set_sres set_cres set_halted set_fires arm disarm armed due tseq fst snd] in *.
 
 Record WInv (s : st) : Prop := {
   wi_tc : 0 <= tc s <= SERVER_COUNT;
@@ -644,7 +644,7 @@ Lemma step_facts s e : Inv s -> ev_ok e -> is_resolve e = false ->
 Proof.
   intros I Hok Hnr. destruct consts_ok as [Csc Cf Cr _].
   unfold step. rewrite (wi_h s (i_w s I)).
-  destruct e as [name| | |err|b|r|dt|]; cbn [is_resolve is_net elapsed] in *; try discriminate.
+  destruct e as [name| | |err|b|r|r|dt|]; cbn [is_resolve is_net elapsed] in *; try discriminate.
   - (* ConnectCb *)
     destruct (reg s) eqn:Hreg.
     2:{ sim. split; [apply Tr_refl; [exact I|lia]|]. split; [lia|]. left; intros H; auto. }
@@ -677,6 +677,17 @@ Proof.
     destruct (recv s b) as [s' o]. sim. split; [exact T|]. split; [lia|].
     destruct K as [K|[K1 K2]]; [left; exact K|]. right. exists b. auto.
   - (* SentRes *)
+    sim. destruct I as [Hw Hprog]. destruct Hw as [Htc HR HT Hdl0 HdT HdR Hh].
+    split; [|split; [lia|left; intros H; auto]].
+    constructor; sim.
+    + constructor; [constructor|]; sim; auto.
+    + rewrite cb_count_nil; lia.
+    + apply clean_nil.
+    + intros a [].
+    + reflexivity.
+    + lia.
+    + intros Hc. split; [exact Hc|]. unfold mu, deadline; sim. split; lia.
+  - (* ConnRes *)
     sim. destruct I as [Hw Hprog]. destruct Hw as [Htc HR HT Hdl0 HdT HdR Hh].
     split; [|split; [lia|left; intros H; auto]].
     constructor; sim.
@@ -1108,11 +1119,11 @@ Theorem C20_old_code_refuted_thm :
   run witness_fault = [CB None] /\
   (* a short name after a successful resolution is answered with the previous address *)
   snd (run_from false init witness_stale) =
-    [Disconnect 0; Connect 53 0 [8;8;8;8];
+    [Disconnect 0; Connect 53 0 0 [8;8;8;8];
      Sent 0 0 [0;22; 1;0; 1;0; 0;1; 0;0; 0;0; 0;0; 4;97;98;99;100;0; 0;1;0;1];
      Disconnect 0; CB (Some [10;20;30;40]); CB (Some [10;20;30;40])] /\
   run witness_stale =
-    [Disconnect 0; Connect 53 0 [8;8;8;8];
+    [Disconnect 0; Connect 53 0 0 [8;8;8;8];
      Sent 0 0 [0;22; 1;0; 1;0; 0;1; 0;0; 0;0; 0;0; 4;97;98;99;100;0; 0;1;0;1];
      Disconnect 0; CB (Some [10;20;30;40]); CB None].
 Proof. vm_compute. repeat split; auto. Qed.
@@ -1123,9 +1134,9 @@ Proof. apply parse_addr_iff; [vm_compute; discriminate | vm_compute; reflexivity
 
 Lemma schedule_example :
   run [Resolve [97;98;99;100]; Adv 21000000] =
-    [Disconnect 0; Connect 53 0 [8;8;8;8];
-     Disconnect 5000000; Disconnect 5200000; Connect 53 5200000 [1;1;1;1];
-     Disconnect 10200000; Disconnect 10400000; Connect 53 10400000 [8;8;4;4];
-     Disconnect 15400000; Disconnect 15600000; Connect 53 15600000 [1;0;0;1];
+    [Disconnect 0; Connect 53 0 0 [8;8;8;8];
+     Disconnect 5000000; Disconnect 5200000; Connect 53 5200000 0 [1;1;1;1];
+     Disconnect 10200000; Disconnect 10400000; Connect 53 10400000 0 [8;8;4;4];
+     Disconnect 15400000; Disconnect 15600000; Connect 53 15600000 0 [1;0;0;1];
      Disconnect 20600000; CB None].
 Proof. vm_compute. reflexivity. Qed.
